@@ -35,6 +35,11 @@ class Layout:
         for i in range(n):
             self.dirs.append(rng.choice(["m%d" % i, "lib/m%d" % i, "m0/n%d" % i if i else "m0"]))
         self.dirs = list(dict.fromkeys(self.dirs))
+        pimp = 0.35
+        if rng.random() < 0.35:
+            # twin trees: the SAME relative import string ("w", "../w", ...) written in different directories names different directories
+            self.dirs = rng.sample(["p", "q", "p/w", "q/w", "p/w/w", "q/w/w"], rng.choice([3, 4, 5, 6]))
+            pimp = 0.6
         n = len(self.dirs)
         self.imports = {}          # file -> list of dir indices imported by string
         self.comps = {}            # component name -> (dir index, root type name)
@@ -45,7 +50,7 @@ class Layout:
             for j in range(rng.choice([1, 1, 2, 3])):
                 k += 1
                 name = "Comp%d" % k
-                imps = [x for x in range(n) if x != i and rng.random() < 0.35]
+                imps = [x for x in range(n) if x != i and rng.random() < pimp]
                 self.comps[name] = {"dir": i, "imports": imps, "root": None}
                 self.dir_files[i].append(name)
         names = list(self.comps)
@@ -63,7 +68,7 @@ class Layout:
         self.mains = []
         for m in range(rng.choice([1, 2, 3])):
             d = rng.randrange(n)
-            imps = [x for x in range(n) if x != d and rng.random() < 0.4]
+            imps = [x for x in range(n) if x != d and rng.random() < max(0.4, pimp)]
             visible = [x for x in names if self.comps[x]["dir"] in [d] + imps]
             used = [rng.choice(visible) for _ in range(rng.choice([0, 1, 2, 3, 4]))] if visible else []
             self.mains.append({"name": "Main%d" % m, "dir": d, "imports": imps, "used": used})
